@@ -30,7 +30,8 @@ impl Lowerer<'_, '_> {
         ty: TyRef,
     ) -> Operand {
         let Some(ir_ty) = self.lower_type(ty) else {
-            return IrValue::Bool(true).into();
+            // Values without a representation (e.g. `()`) are always equal.
+            return IrValue::Bool(!negated).into();
         };
         match ir_ty {
             IrType::Bool
@@ -109,7 +110,10 @@ impl Lowerer<'_, '_> {
         if is_ref {
             self.call_eq_of(false, left_ptr.into(), right_ptr.into(), ty)
         } else {
-            let ir_ty = self.lower_type(ty).unwrap();
+            // Values without a representation (e.g. `()`) are always equal.
+            let Some(ir_ty) = self.lower_type(ty) else {
+                return IrValue::Bool(true).into();
+            };
 
             let left = self.new_tmp(ir_ty);
             self.emit_read(left.clone(), left_ptr.into(), ir_ty);
